@@ -47,7 +47,7 @@ def _gargs(st):
 
 def correspondence(ctx):
     rng = ctx.rng
-    n = ctx.n(160, 1600)
+    n = ctx.n(160, 4800)
     cases, dist = [], {}
     for i in range(n):
         D = rng.choice([2, 3])
@@ -85,8 +85,7 @@ def correspondence(ctx):
             term = f"vcloser tol ({fn} (K:=QcF) {D} {a} {b} {g} {h} {qc_vec(c['x'])}) {qc_vec(r['val'])}"
         else:
             term = f"vcloser tol (gen_origin (K:=QcF) {D} {g}) {qc_vec(r['val'])}"
-        lines.append(f"Definition c{i} : bool := {term}.")
-        names.append((i, f"c{i}"))
+        names.append((i, term))
     # lattice: model arange vs implementation for sampled n (values), both flags
     lat = []
     ns = sorted(set([2, 3, 4, 5, 8, 9, 16, 17, 31, 32, 33, 64] + [rng.randint(2, 200) for _ in range(ctx.n(6, 40))]))
@@ -94,7 +93,7 @@ def correspondence(ctx):
         for ac in (True, False):
             lat.append({"n": nn, "ac": ac, "dtype": "float64", "values": True})
     lres = vlib.run_impl("c01_impl", {"fn": "lattice_cases", "cases": lat})
-    lines.append("From DV Require Import Model.Lattice Gen.GridCoords.")
+    lines.insert(2, "From DV Require Import Model.Lattice Gen.GridCoords.")
     lines.append("Definition ltol : Q := 1 # 1000000000000.")
     for j, (c, r) in enumerate(zip(lat, lres)):
         if "error" in r:
@@ -103,9 +102,8 @@ def correspondence(ctx):
         sfx = "ac" if c["ac"] else "nac"
         nq = f"(inject_Z {c['n']})"
         vals = coq_list([qlit(v) for v in r["val"]])
-        lines.append(f"Definition l{j} : bool := vclose_q ltol (arange (gen_coords_start_{sfx} {nq}) (gen_coords_stop_{sfx} {nq}) "
-                     f"(gen_coords_step_{sfx} {nq})) {vals}.")
-        names.append((("lattice", j), f"l{j}"))
+        names.append((("lattice", j), f"vclose_q ltol (arange (gen_coords_start_{sfx} {nq}) (gen_coords_stop_{sfx} {nq}) "
+                                      f"(gen_coords_step_{sfx} {nq})) {vals}"))
         dist[f"lattice:{sfx}"] = dist.get(f"lattice:{sfx}", 0) + 1
     # rounding model vs round_decimals (incl. exact ties)
     rc_cases = []
@@ -121,24 +119,18 @@ def correspondence(ctx):
         if "error" in r:
             failures.append({"case": c, "impl": r, "why": "round_decimals raised"})
             continue
-        lines.append(f"Definition r{j} : bool := qclose_q (1 # 100000000) (round_decimals {c['d']} {qlit(c['x'])}) {qlit(r['val'])}.")
-        names.append((("round", j), f"r{j}"))
+        names.append((("round", j), f"qclose_q (1 # 100000000) (round_decimals {c['d']} {qlit(c['x'])}) {qlit(r['val'])}"))
     dist["round"] = len(rc_cases)
-    lines.append("Definition results : list bool := " + coq_list([nm for _, nm in names]) + ".")
-    lines.append('Eval vm_compute in ("FAIL"%string, failing results).')
-    rc, out = vlib.coqc_text("\n".join(lines) + "\n", ctx.scratch, "cases_c01", timeout=900)
-    bad = vlib.parse_nat_list(out, "FAIL")
-    if rc != 0 or bad is None:
-        failures.append({"why": "case file did not evaluate (generated definitions missing or ill-typed)", "coq": out[-800:]})
-    else:
-        for j in bad:
-            i = names[j][0]
-            if isinstance(i, tuple):
-                src = lat if i[0] == "lattice" else rc_cases
-                failures.append({"case": src[i[1]], "why": f"{i[0]} model value differs from implementation"})
-            else:
-                failures.append({"case": cases[i], "impl": {k: v for k, v in res[i].items() if k != 'stored'},
-                                 "why": "model value differs from implementation"})
+    bad, errs = vlib.run_cases(ctx.scratch, lines, names, name="cases_c01")
+    for e in errs:
+        failures.append({"why": "case file did not evaluate (generated definitions missing or ill-typed)", "coq": e[-800:]})
+    for i in bad:
+        if isinstance(i, tuple):
+            src = lat if i[0] == "lattice" else rc_cases
+            failures.append({"case": src[i[1]], "why": f"{i[0]} model value differs from implementation"})
+        else:
+            failures.append({"case": cases[i], "impl": {k: v for k, v in res[i].items() if k != 'stored'},
+                             "why": "model value differs from implementation"})
     total = len(cases) + len(lat) + len(rc_cases)
     return {"evaluations": total, "distinct_nontrivial": len({str(c) for c in cases}) + len(lat) + len({str(c) for c in rc_cases}),
             "rule": "seeded random oriented anisotropic grids (dyadic spacing/center, rational rotations incl. 90-degree ones), all 16 axes pairs "
@@ -151,7 +143,7 @@ def correspondence(ctx):
 
 
 def search(ctx, broken, corr_failures):
-    n = ctx.n(10, 120)
+    n = ctx.n(10, 400)
     r = vlib.run_impl("c01_impl", {"fn": "oracle", "seed": ctx.seed, "n": n}, timeout=1500)
     ns = list(range(1, 4097)) if ctx.thorough() else sorted(set(list(range(1, 130)) + [ctx.rng.randint(130, 4096) for _ in range(150)] + [4096]))
     l = vlib.run_impl("c01_impl", {"fn": "lattice_sweep", "ns": ns})
